@@ -98,6 +98,25 @@ func c11Node(p string, depth int) PNode {
 
 var c11Root = c11Node("R", 3)
 
+// heterogeneous elements: the same field names at different positions
+type HetA struct {
+	Title    string
+	Director string
+	Tags     []string
+}
+type HetB struct {
+	Director string
+	Tags     []string
+	Title    string
+}
+
+var c11Mixed = []interface{}{
+	HetA{"Mixed[0].Title", "Mixed[0].Director", []string{"Mixed[0].Tags[0]"}},
+	HetB{"Mixed[1].Director", []string{"Mixed[1].Tags[0]"}, "Mixed[1].Title"},
+	&HetA{"Mixed[2].Title", "Mixed[2].Director", []string{"Mixed[2].Tags[0]"}},
+	&HetB{"Mixed[3].Director", []string{"Mixed[3].Tags[0]"}, "Mixed[3].Title"},
+}
+
 type c11Step struct {
 	kind string // field | index | key | call
 	name string
@@ -126,7 +145,10 @@ func (s c11Step) spell(mode string) string {
 			return fmt.Sprintf("[i%d + 0]", s.idx)
 		case "adv":
 			// index variables named like fields
-			return []string{"[Nodes0]", "[Kids1]"}[s.idx%2]
+			if s.idx >= 2 {
+				return fmt.Sprintf("[i%d]", s.idx)
+			}
+			return []string{"[Nodes0]", "[Kids1]"}[s.idx]
 		}
 		return fmt.Sprintf("[%d]", s.idx)
 	}
@@ -226,7 +248,7 @@ func c11Options(v reflect.Value) (good []c11Step, bad []c11Step) {
 		}
 		bad = append(bad, c11Step{kind: "field", name: "Nope"}, c11Step{kind: "call", name: "Nope"})
 	case reflect.Slice, reflect.Array:
-		for i := 0; i < v.Len() && i < 2; i++ {
+		for i := 0; i < v.Len() && i < 4; i++ {
 			good = append(good, c11Step{kind: "index", idx: i})
 		}
 		bad = append(bad, c11Step{kind: "index", idx: 9}, c11Step{kind: "index", idx: -1})
@@ -257,6 +279,7 @@ func c11Roots() []c11RootSpec {
 		{"Name", func() interface{} { return r.Leaf }, reflect.ValueOf(r.Leaf)},    // root named like a field
 		{"M", func() interface{} { return map[string]PNode{"k0": r.Nodes[0], "k1": r.Nodes[1]} }, reflect.ValueOf(map[string]PNode{"k0": r.Nodes[0], "k1": r.Nodes[1]})},
 		{"Leaves", func() interface{} { return r.PLeaves }, reflect.ValueOf(r.PLeaves)}, // []*PLeaf under a field-like name
+		{"Mixed", func() interface{} { return c11Mixed }, reflect.ValueOf(c11Mixed)},    // []interface{} of different struct types
 	}
 }
 
@@ -265,6 +288,8 @@ func c11Context(rs c11RootSpec) *plush.Context {
 	c.Set(rs.name, rs.value())
 	c.Set("i0", 0)
 	c.Set("i1", 1)
+	c.Set("i2", 2)
+	c.Set("i3", 3)
 	c.Set("i9", 9)
 	c.Set("neg", -1)
 	c.Set("Nodes0", 0)
@@ -289,7 +314,7 @@ func init() {
 			return s
 		},
 		Run:  c11Run,
-		Rule: "data graph of depth 3 from a struct/map/slice/pointer type family (repeated field names at several depths, prefix names Kids/KidsX, value- and pointer-receiver methods returning leaves/structs/slices, every leaf string spelling its own Go path); from 7 roots (struct value, pointer, slices and a leaf under names that are also field names, a map) every walk of the type graph of <=L steps (field, index, map key, method call) ending at a string leaf, with indexes/keys spelled as literals, variables, i+0 expressions and variables named like fields; each used in an output tag, through let, and (for walks through a slice) as loop iterable with the tail applied to the loop variable. Expected value = Go navigation by reflection. Every walk prefix is also extended by one uncompletable step (missing key, nil pointer then member/method, index 9 / -1 via variable, unknown field/method, unexported field), alone and followed by a further .Field / .Field[0] / .Method() continuation. Oracle: completable => exactly the leaf, or an error; never another value, never empty without error. Uncompletable => error or empty output, never a leaf, never a panic. Non-trivial: walks with >=2 steps.",
+		Rule: "data graph of depth 3 from a struct/map/slice/pointer type family (repeated field names at several depths, prefix names Kids/KidsX, value- and pointer-receiver methods returning leaves/structs/slices, every leaf string spelling its own Go path); from 8 roots (struct value, pointer, slices and a leaf under names that are also field names, a map, a []interface{} of different struct types holding the same field names at different positions) every walk of the type graph of <=L steps (field, index, map key, method call) ending at a string leaf, with indexes/keys spelled as literals, variables, i+0 expressions and variables named like fields; each used in an output tag, through let, and (for walks through a slice) as loop iterable with the tail applied to the loop variable. Expected value = Go navigation by reflection. Every walk prefix is also extended by one uncompletable step (missing key, nil pointer then member/method, index 9 / -1 via variable, unknown field/method, unexported field), alone and followed by a further .Field / .Field[0] / .Method() continuation. Oracle: completable => exactly the leaf, or an error; never another value, never empty without error. Uncompletable => error or empty output, never a leaf, never a panic. Non-trivial: walks with >=2 steps.",
 		Bound: func(th bool) string {
 			if th {
 				return "walk length <=7"
